@@ -27,11 +27,11 @@ using booster::ptime;
 struct HRec {
 	std::string kind; int count = 0; int thread = -2; int64_t t_us = 0; int code = 0; std::string cat; size_t n = 0;
 	int64_t deadline_us = -1; int fd = -1; int dir = 0; uint64_t armed_seq = 0; size_t readable_at_call = 0; bool posted_after_stop = false; bool cancel_ok = false; bool threw = false;
-	size_t want = 0; std::string data; int life = 1; bool aba = false; bool must_cancel = false, in_call = false, ran_in_call = false;   /* must_cancel: cancel() was called while this timer wait was pending and not yet due */   // aba: wait on a descriptor whose number was re-used while the cancel of the previous device was still deferred (known finding)
+	size_t want = 0; std::string data; int life = 1; bool aba = false; int64_t t_cancel_us = -1; bool must_cancel = false, in_call = false, ran_in_call = false;   /* must_cancel: cancel() was called while this timer wait was pending and not yet due */   // aba: wait on a descriptor whose number was re-used while the cancel of the previous device was still deferred (known finding)
 };
 struct World {
 	std::vector<HRec> h; int live_functors = 0; int loop_thread = -1, loop_thread2 = -1; bool stop_called = false; bool pair_starved = false; int pair_waits = 0; int loop_restarts = 0;
-	int dev_cycles = 0, dev_reused = 0, dev_stale = 0; std::map<int,int> stale_fd;   /* descriptor number -> handler of the device closed by a non-loop thread whose cancel the loop may not have applied yet */ std::map<std::pair<int,int>,bool> armed; std::set<int> xcancelled_fds; std::vector<std::pair<int,uint64_t>> xcancels; uint64_t evseq = 0;
+	int dev_cycles = 0, dev_reused = 0, dev_stale = 0, dev_attached = 0; std::map<int,int> stale_fd;   /* descriptor number -> handler of the device closed by a non-loop thread whose cancel the loop may not have applied yet */ std::map<std::pair<int,int>,bool> armed; std::set<int> xcancelled_fds; std::vector<std::pair<int,uint64_t>> xcancels; uint64_t evseq = 0;
 	int add(const std::string &k){ simk::TsanIgnore ign; h.emplace_back(); h.back().kind = k; return (int)h.size()-1; }
 };
 World *W = nullptr;
@@ -92,13 +92,13 @@ struct E6 : Engine {
 		for(int t=0;t<nprod;t++){ J ops = J::arr(); int n = 1 + r.below(thorough ? 16 : 9);
 			for(int i=0;i<n;i++){ J o = J::obj(); unsigned x = r.below(100);
 				if(x < 25){ o["op"] = "post"; if(throwing && r.below(4) == 0) o["throws"] = 1; }
-				else if(x < 45){ o["op"] = "timer"; unsigned y = r.below(10); o["ms"] = y < 3 ? 0 : y < 5 ? -5 : y < 8 ? (int)r.below(20) : (int)(10 * (1 + r.below(3))); }
+				else if(x < 45){ o["op"] = "timer"; unsigned y = r.below(10); o["ms"] = y < 3 ? 0 : y < 5 ? -5 : y < 8 ? (int)r.below(20) : (int)(10 * (1 + r.below(3))); if(r.below(6) == 0) o["ms"] = (int)(60000 + r.below(3000000)); }   /* one in six is far away (1..50 minutes): the loop sleeps long, what a cancel of ANOTHER timer has to interrupt */
 				else if(x < 57){ o["op"] = "cancel_timer"; o["i"] = (int)r.below(6); }
 				else if(x < 70 && npairs){ o["op"] = "io"; o["p"] = (int)r.below(npairs); o["dir"] = r.below(4) == 0 ? 1 : 0; }
 				else if(x < 78 && npairs){ o["op"] = xthread ? "xcancel_io" : "cancel_io"; o["p"] = (int)r.below(npairs); }
 				else if(x < 90 && npairs){ o["op"] = "ready"; o["p"] = (int)r.below(npairs); o["n"] = 1 + (int)r.below(50); }
 				else if(x < 93){ o["op"] = "sleep"; o["ms"] = (int)r.below(25); }
-				else if(x < 97){ o["op"] = "dev"; o["early"] = (int)r.below(3); o["dir2"] = (int)r.below(2); o["gap"] = (int)r.below(3); o["settle"] = (int)(r.below(3) != 0); o["xfer"] = r.below(2) ? (int)(1 + r.below(50)) : 0; }   // a device owned by this thread: armed, closed by this thread, then a new device on the re-used descriptor number
+				else if(x < 97){ o["op"] = "dev"; o["early"] = (int)r.below(3); o["dir2"] = (int)r.below(2); o["gap"] = (int)r.below(3); o["settle"] = (int)(r.below(3) != 0); o["xfer"] = r.below(2) ? (int)(1 + r.below(50)) : 0; o["attach"] = (int)(r.below(4) == 0); }   /* attach: the first device does not own its descriptor (attach()); close() must cancel its wait all the same, the descriptor is closed by the thread itself */   // a device owned by this thread: armed, closed by this thread, then a new device on the re-used descriptor number
 				else { o["op"] = "yield"; }
 				ops.push(o); }
 			th.push(ops); }
@@ -239,7 +239,7 @@ struct E6 : Engine {
 						ptime at = ptime(w.h[h].deadline_us/1000000,(int)((w.h[h].deadline_us%1000000)*1000)); int id = srv.set_timer_event(at,Fn(h)); tids.push_back(id); thids.push_back(h); }
 					else if(op == "cancel_timer"){
 						// documented contract: an id is cancelled at most once, and not after its handler was seen to run
-						if(!tids.empty()){ size_t k = (size_t)(o.geti("i") % (int64_t)tids.size()); if(tids[k] >= 0 && w.h[thids[k]].count == 0){ int id = tids[k]; tids[k] = -1; srv.cancel_timer_event(id); } } }
+						if(!tids.empty()){ size_t k = (size_t)(o.geti("i") % (int64_t)tids.size()); if(tids[k] >= 0 && w.h[thids[k]].count == 0){ int id = tids[k]; tids[k] = -1; srv.cancel_timer_event(id); { simk::TsanIgnore ign; w.h[thids[k]].t_cancel_us = simk::now_us(); } } } }
 					else if(op == "io" && npairs){ int dir = o.geti("dir") ? aio::io_events::out : aio::io_events::in; int fd = pairs[p].first;
 						if(!w.armed[{fd,dir}]){ w.armed[{fd,dir}] = true; int h = w.add(dir == aio::io_events::in ? "io_in" : "io_out"); w.h[h].fd = fd; w.h[h].dir = dir; w.h[h].posted_after_stop = w.stop_called; srv.set_io_event(fd,dir,Fn(h)); w.h[h].armed_seq = ++w.evseq; } }
 					else if(op == "cancel_io" && npairs){ int fd = pairs[p].first; aio::io_service *sp = &srv; srv.post([sp,fd]{ sp->cancel_io_events(fd); }); }   // executed on the loop thread, like basic_io_device::cancel
@@ -256,12 +256,13 @@ struct E6 : Engine {
 						auto hwrite = [](int fd,const char *c){ for(int k=0;k<1000;k++){ if(::write(fd,c,1) == 1) return; if(errno != EINTR && errno != EAGAIN) return; } };   // the harness's own writes retry injected EINTR / EAGAIN
 						auto stale_hit = [&](int a,int b){ bool hit = false; for(int fd:{a,b}){ auto it = w.stale_fd.find(fd); if(it != w.stale_fd.end()){ w.h[it->second].aba = true; hit = true; } } return hit; };
 						int sv[2]; if(socketpair(AF_UNIX,SOCK_STREAM,0,sv) != 0) continue; fcntl(sv[1],F_SETFL,O_NONBLOCK); int dev_h1 = -1, dev_h2 = -1; bool stale1 = stale_hit(sv[0],sv[1]);
-						{ aio::stream_socket s1(srv); s1.assign(sv[0]); s1.set_non_blocking(true);
+						bool attach = o.geti("attach") != 0;
+						{ aio::stream_socket s1(srv); if(attach) s1.attach(sv[0]); else s1.assign(sv[0]); s1.set_non_blocking(true);
 						  int h1 = w.add("dev_in"); w.h[h1].aba = stale1; s1.on_readable(Fn(h1));
 						  if(!sentinel()){ tfail("handler-never-invoked","a posted handler was never invoked by a running loop"); booster::system::error_code e; s1.close(e); ::close(sv[1]); break; }   // the wait is registered now (the queue is first-in first-out)
 						  int early = (int)o.geti("early"); if(early == 1) hwrite(sv[1],"x");   // the event may happen right before the close: success or cancellation, once
 						  if(early == 2) simk::sleep_us(2000);   // let the loop go back to polling
-						  w.stale_fd[sv[0]] = h1; booster::system::error_code e; s1.close(e); ::close(sv[1]); w.h[h1].want = early == 1 ? 1 : 0; dev_h1 = h1; }
+						  w.stale_fd[sv[0]] = h1; booster::system::error_code e; s1.close(e); if(attach){ ::close(sv[0]); simk::TsanIgnore ign; w.dev_attached++; } ::close(sv[1]); w.h[h1].want = early == 1 ? 1 : 0; dev_h1 = h1; }
 						// settle: the thread waits until the loop has applied the (possibly deferred) cancel before it opens the next descriptor. Without that the number is
 						// re-used while the loop still holds the old registration - an ABA problem of io_service's deferred cancel, recorded as a known finding.
 						bool settle = o.geti("settle",1) != 0; auto unstale = [&]{ auto it = w.stale_fd.find(sv[0]); if(it != w.stale_fd.end() && it->second == dev_h1) w.stale_fd.erase(it); };
@@ -333,7 +334,7 @@ struct E6 : Engine {
 			for(auto &ch:chains){ ch->timer.reset(); ch->canceler.reset(); if(ch->sock){ booster::system::error_code e; ch->sock->close(e); } if(ch->peer >= 0 && !ch->peer_closed) ::close(ch->peer); }
 			for(auto &pr:pairs){ ::close(pr.first); ::close(pr.second); }
 		}
-		res.counters["run_restarted_after_handler_exception"] = w.loop_restarts; res.counters["dev_cycles"] = w.dev_cycles; res.counters["dev_descriptor_reused"] = w.dev_reused; res.counters["dev_cycles_on_stale_number"] = w.dev_stale;
+		res.counters["run_restarted_after_handler_exception"] = w.loop_restarts; res.counters["dev_cycles"] = w.dev_cycles; res.counters["dev_descriptor_reused"] = w.dev_reused; res.counters["dev_cycles_on_stale_number"] = w.dev_stale; res.counters["dev_attached_devices"] = w.dev_attached;
 		int n_ok = 0, n_cancel = 0;
 		if(!stop_race) for(size_t i=0;i<w.h.size();i++){ HRec &r = w.h[i]; if(!r.aba) continue; std::string nm = r.kind + "#" + std::to_string(i); std::string bad;
 			if(r.count != 1) bad = "was invoked " + std::to_string(r.count) + " times"; else if(r.kind == "dev_in" ? (r.code == 0 && r.want == 0) : r.code != 0) bad = r.kind == "dev_in" ? "reported readable although its device was closed and its peer never wrote" : "got error " + std::to_string(r.code) + "/" + r.cat + " although its device was never cancelled and the event had happened";
@@ -346,6 +347,8 @@ struct E6 : Engine {
 			bool canceled = r.code == aio::aio_error::canceled && r.cat == aio::aio_error_cat.name();
 			if(r.code == 0) n_ok++; else n_cancel++;
 			if(r.kind == "ptimer" && r.must_cancel && r.code == 0) res.fail("cancelled-timer-fired",nm + ": cancel() was called on the deadline_timer while this wait (armed from inside the previous handler) was pending and not yet due, yet the handler was invoked with success " + std::to_string((long)((r.t_us - r.deadline_us)/1000)) + " ms after its deadline");
+			// a cancel completes the wait: the loop is woken for it, the cancellation does not have to wait for whatever wakes the loop next
+			if(r.kind == "timer" && canceled && r.t_cancel_us >= 0 && r.t_us - r.t_cancel_us > 5000000 && !stop_race) res.fail("cancelled-timer-delivered-late",nm + ": cancel_timer_event() returned at " + std::to_string((long)(r.t_cancel_us/1000)) + " ms (simulated) but the handler got its cancellation " + std::to_string((long)((r.t_us - r.t_cancel_us)/1000)) + " ms later - only when something else woke the loop");
 			if(r.kind == "timer" || r.kind == "dtimer" || r.kind == "ptimer"){
 				if(r.code == 0 && r.t_us < r.deadline_us) res.fail("timer-fired-early",nm + " fired " + std::to_string((long)(r.deadline_us - r.t_us)) + " us before its deadline");
 				if(r.code != 0 && !canceled) res.fail("unexpected-error-code",nm + " got error " + std::to_string(r.code) + "/" + r.cat); }
